@@ -259,6 +259,16 @@ func (p *Program) elementField(v ssa.Value, rec recordedPair) (fld *types.Var, i
 		if f, ok := loadOfContainerField(s); ok && f == rec.Field {
 			isF = true
 		}
+		// a rebuild helper that is given the records to keep: it registers them and makes them the field's content
+		if prm, ok := strip(s).(*ssa.Parameter); ok {
+			eachInstr(prm.Parent(), func(i ssa.Instruction) {
+				if st, ok := i.(*ssa.Store); ok && strip(st.Val) == ssa.Value(prm) {
+					if fa, ok := containerFieldAddr(st.Addr); ok && fieldOfAddr(fa) == rec.Field {
+						isF = true
+					}
+				}
+			})
+		}
 	}
 	if !isF {
 		return nil, false, false, nil
@@ -378,6 +388,11 @@ func (p *Program) replayedByRecord(rm *ssa.Function, reg muxRegistration) (ok bo
 					f, _ = loadOfContainerField(x.Map)
 				}
 				if f == rec.Field && !inLoop[i.Block()] && canReach(i, r2.Call) {
+					if st, isSt := i.(*ssa.Store); isSt {
+						if _, isPrm := strip(st.Val).(*ssa.Parameter); isPrm {
+							return // the records handed to the rebuild become the field's content
+						}
+					}
 					written = true
 					why = "Container." + rec.Field.Name() + " is overwritten at " + p.ipos(i) + " before the replay loop"
 				}
@@ -399,6 +414,43 @@ func (p *Program) replayedByRecord(rm *ssa.Function, reg muxRegistration) (ok bo
 // compute a pattern from a WebService. Such registrations are decided by C11.e, not by the rules about computed
 // patterns (C11.c, C11.h, C11.j).
 func (p *Program) isRecordReplay(reg muxRegistration) bool {
+	// the pattern is a string field of an element of a list of records (a module struct that is not a WebService or
+	// a Route), wherever the list comes from (a field, or a parameter of a rebuild helper)
+	if u, ok := strip(singleAssignment(reg.Key)).(*ssa.UnOp); ok && u.Op == token.MUL {
+		if fa, ok := u.X.(*ssa.FieldAddr); ok {
+			var elem ssa.Value
+			switch b := fa.X.(type) {
+			case *ssa.IndexAddr:
+				elem = b
+			case *ssa.UnOp:
+				if ia, ok := b.X.(*ssa.IndexAddr); ok {
+					elem = ia
+				}
+			case *ssa.Alloc:
+				for _, st := range p.cellStores(b) {
+					if l, ok := st.Val.(*ssa.UnOp); ok && l.Op == token.MUL {
+						if ia, ok := l.X.(*ssa.IndexAddr); ok {
+							elem = ia
+						}
+					}
+				}
+			}
+			if elem != nil {
+				t := fa.X.Type()
+				if pt, ok := t.Underlying().(*types.Pointer); ok {
+					t = pt.Elem()
+				}
+				if pt, ok := t.Underlying().(*types.Pointer); ok {
+					t = pt.Elem()
+				}
+				if nt, ok := t.(*types.Named); ok && nt.Obj().Pkg() != nil && nt.Obj().Pkg().Path() == modulePath {
+					if _, isStruct := nt.Underlying().(*types.Struct); isStruct && nt.Obj().Name() != "WebService" && nt.Obj().Name() != "Route" {
+						return true
+					}
+				}
+			}
+		}
+	}
 	ct := p.namedType("Container")
 	if ct == nil {
 		return false
